@@ -85,6 +85,10 @@ def run(tier, seed):
     # models passed through literally (no exploration on top): resources with unsorted / repeated absence lists
     lit = [(sp, {"rule": r, "max_time": 20}) for sp in F.unsorted_absence_specs() for r in ("TSLACK", "SPT")]
     col.merge(stepcheck.explore(lit, MONS, 0, 0, seed=seed))
+    # project-wide absence lists as a caller may write them: every sequence of <= 3 steps out of 0..4 (any order, repeated entries)
+    seqs = F.absence_sequences(5, 3)
+    lit2 = [(sp, {"rule": "TSLACK", "max_time": 24, "absence": list(s)}) for sp in F.absence_probe_models() for s in (seqs if tier == "thorough" else [q for q in seqs if len(q) != 2 or q[0] >= q[1]])]
+    col.merge(stepcheck.explore(lit2, MONS, 0, 0, seed=seed))
     col.merge(stepcheck.explore(stepcheck.edited_items(), MONS, 0, 0, seed=seed))  # runs after an earlier run and an in-place model edit
     meta = {
         "level": "model_checking",
@@ -92,7 +96,7 @@ def run(tier, seed):
         "worker-ID lists (None, [], singletons, pair, unknown ID) x solo patterns on 3 pooled workers; (d) facility skill x worker facility-skill over {missing,0,1} x workplace "
         "targeting x fixed facility IDs x solo facility; plus FAC and MIX/TWOTEAM flow families; each explored over all absence answers (project, each worker, each facility) "
         "up to horizon H with <= D non-default answers; non-trivial = distinct (model, worker, task) new-allocation events",
-        "bounds": {"H": H, "D": D, "base_models": len(its)},
+        "bounds": {"H": H, "D": D, "base_models": len(its), "literal_project_absence_lists(any order, repeats)": len(lit2)},
         "assumptions": ["eligibility is evaluated from the spec and the absence answer of the step, never through can_add_resources"],
     }
     if col.checks["c04.worker"] == 0 or col.checks["c04.pair"] == 0:
